@@ -425,6 +425,7 @@ class Channel(Transformation):
             # NOTE deepcopy would make copies of the parameters which would mess things up
             temp = copy.copy(self)
             temp.p = [T] + self.p[1:]  # change the parameter list
+            temp._measurement_deps = self._measurement_deps | other._measurement_deps
             return temp
 
         raise MergeFailure("Don't know how to merge these operations.")
@@ -528,6 +529,7 @@ class Gate(Transformation):
             # NOTE deepcopy would make copies the parameters which would mess things up
             temp = copy.copy(self)
             temp.p = [p0] + self.p[1:]  # change the parameter list
+            temp._measurement_deps = self._measurement_deps | other._measurement_deps
             return temp
 
         raise MergeFailure("Don't know how to merge these gates.")
